@@ -21,7 +21,7 @@ var Introducers = []string{"Add", "AddRaw", "Set", "SetRaw", "WriteCas", "WriteC
 	"WriteWithXattrs", "UpdateXattrs", "WriteResurrectionWithXattrs", "WriteUpdateWithXattrs", "SetWithMeta", "WriteSubDoc-then-Touch", "Add-over-tombstone", "Set-over-tombstone"}
 
 // Order classes: how the deadline under test relates to the other deadlines / writes of the bucket.
-var Orders = []string{"only", "later-first", "later-after", "shorten", "lengthen", "preserve", "clear", "delete-clears", "past", "sibling-collection", "touch-shorten", "touch-lengthen", "recreated-collection"}
+var Orders = []string{"only", "later-first", "later-after", "shorten", "lengthen", "preserve", "clear", "delete-clears", "past", "sibling-collection", "touch-shorten", "touch-lengthen", "recreated-collection", "after-empty-sweep"}
 
 type Spec struct {
 	Disk       bool
@@ -321,6 +321,20 @@ func RunOne(tmp string, s Spec) (res Result) {
 		_ = c.StartDCPFeed(ctx, sgbucket.FeedArguments{ID: "rt1b", Backfill: sgbucket.FeedNoBackfill, Terminator: term}, feedCb(1), nil)
 		t0, t1, err = introduce(c, s.Intro, key, lead, s.Relative)
 		setWant(lead)
+	case "after-empty-sweep":
+		// the timer is armed for a decoy one second ahead; the decoy's deadline is then lengthened, cleared or the decoy
+		// deleted, so the sweep at that instant finds nothing - and must still re-arm the timer for the target
+		_ = c.SetRaw("decoy", uint32(time.Now().Unix())+1, nil, []byte("d"))
+		switch s.Lead % 3 {
+		case 0:
+			_, _ = c.Touch("decoy", uint32(time.Now().Unix())+3600)
+		case 1:
+			_ = c.SetRaw("decoy", 0, nil, []byte("d2"))
+		default:
+			_ = c.Delete("decoy")
+		}
+		t0, t1, err = introduce(c, s.Intro, key, lead, s.Relative)
+		setWant(lead)
 	case "sibling-collection":
 		_ = other.Set(key, 0, nil, []byte(`{"sibling":"never expires"}`)) // same key, other collection, no expiry
 		_ = other.Set("sib2", abs(time.Now().Unix(), far, s.Relative), nil, []byte(`{"sibling":"later"}`))
@@ -448,4 +462,189 @@ func ifs(c bool, a, b string) string {
 		return a
 	}
 	return b
+}
+
+// SweepRace: many documents share one deadline, so the expiry sweep that starts at that instant runs for a while;
+// while it runs, the target (due at the same instant) is rewritten without expiry / with a far one, or touched to a
+// far deadline. The rewrite is acknowledged, so from then on the expiry in force is the new one: the document must
+// stay readable although the sweep had already collected its key.
+type SweepRaceResult struct {
+	Disk     bool     `json:"disk"`
+	Variant  string   `json:"variant"`
+	Bulk     int      `json:"bulk"`
+	Rewrote  bool     `json:"rewroteDuringSweep"`
+	Problems []string `json:"problems"`
+	Incon    string   `json:"inconclusive,omitempty"`
+}
+
+var SweepVariants = []string{"Set-exp0", "SetRaw-far", "Touch-far", "WriteCas-exp0", "Update-exp0"}
+
+func RunSweepRace(tmp string, disk bool, variant string, bulk int) (res SweepRaceResult) {
+	res.Disk, res.Variant, res.Bulk = disk, variant, bulk
+	name := fmt.Sprintf("rs%d_%d", os.Getpid(), serial.Add(1))
+	url, dir := rosmar.InMemoryURL, ""
+	if disk {
+		dir = filepath.Join(tmp, name)
+		url = "rosmar://" + dir
+	}
+	ctx := context.Background()
+	b, err := rosmar.OpenBucket(url, name, rosmar.CreateNew)
+	if err != nil {
+		res.Incon = "open: " + err.Error()
+		return
+	}
+	defer func() {
+		func() { defer func() { _ = recover() }(); _ = b.CloseAndDelete(ctx) }()
+		if dir != "" {
+			_ = os.RemoveAll(dir)
+		}
+	}()
+	c := b.DefaultDataStore().(*rosmar.Collection)
+	T := uint32(time.Now().Unix()) + 3
+	for i := 0; i < bulk; i++ {
+		if err := c.SetRaw(fmt.Sprintf("a%05d", i), T, nil, []byte("x")); err != nil {
+			res.Incon = "bulk write: " + err.Error()
+			return
+		}
+	}
+	const target = "zzz-target"
+	if err := c.SetRaw(target, T, nil, []byte(`{"v":"old"}`)); err != nil {
+		res.Incon = "target write: " + err.Error()
+		return
+	}
+	if uint32(time.Now().Unix()) >= T {
+		res.Incon = "set-up took longer than the deadline"
+		return
+	}
+	// wait until the sweep has started (its first victim is gone)
+	start := time.Now()
+	for {
+		if _, _, gerr := c.GetRaw("a00000"); gerr != nil {
+			break
+		}
+		if time.Since(start) > 15*time.Second {
+			res.Incon = "the sweep did not start within 15 s"
+			return
+		}
+		time.Sleep(200 * time.Microsecond)
+	}
+	far := uint32(time.Now().Unix()) + 3600
+	fresh := []byte(`{"v":"fresh"}`)
+	switch variant {
+	case "Set-exp0":
+		err = c.Set(target, 0, nil, fresh)
+	case "SetRaw-far":
+		err = c.SetRaw(target, far, nil, fresh)
+	case "Touch-far":
+		fresh = []byte(`{"v":"old"}`)
+		_, err = c.Touch(target, far)
+	case "WriteCas-exp0":
+		var cas uint64
+		if _, cas, err = c.GetRaw(target); err == nil {
+			_, err = c.WriteCas(target, 0, cas, fresh, 0)
+		}
+	case "Update-exp0":
+		_, err = c.Update(target, 0, func(cur []byte) ([]byte, *uint32, bool, error) { return fresh, nil, false, nil })
+	}
+	if err != nil {
+		res.Incon = "the target was already swept when the rewrite arrived: " + err.Error()
+		return
+	}
+	res.Rewrote = true
+	// the rewrite was acknowledged: from here on the document has no (near) expiry
+	deadline := time.Now().Add(2 * time.Second)
+	for time.Now().Before(deadline) {
+		raw, _, gerr := c.GetRaw(target)
+		if gerr != nil {
+			res.Problems = append(res.Problems, fmt.Sprintf("wrongly-expired|%s of the target was acknowledged while the expiry sweep for its old deadline was running, yet %s later the document is gone (%v): the sweep deleted a key it had collected earlier without looking at its expiry again", variant, time.Since(start).Round(time.Millisecond), gerr))
+			return
+		}
+		if string(raw) != string(fresh) {
+			res.Problems = append(res.Problems, fmt.Sprintf("wrong-body|after %s the target reads %q", variant, raw))
+			return
+		}
+		time.Sleep(20 * time.Millisecond)
+	}
+	return
+}
+
+// TombstoneExpiry: a document is deleted through an entry point that also takes an expiry (Update with a deleting
+// callback, WriteCas without a body). Delete clears the expiry: nothing may happen to the key at that time - no
+// second deletion event, no new CAS.
+type TombstoneExpiryResult struct {
+	Disk      bool     `json:"disk"`
+	Variant   string   `json:"variant"`
+	Deletions int      `json:"deletionEvents"`
+	Problems  []string `json:"problems"`
+	Incon     string   `json:"inconclusive,omitempty"`
+}
+
+var TombstoneVariants = []string{"Update-delete", "WriteCas-nil", "Update-delete-relative"}
+
+func RunTombstoneExpiry(tmp string, disk bool, variant string) (res TombstoneExpiryResult) {
+	res.Disk, res.Variant = disk, variant
+	name := fmt.Sprintf("rx%d_%d", os.Getpid(), serial.Add(1))
+	url, dir := rosmar.InMemoryURL, ""
+	if disk {
+		dir = filepath.Join(tmp, name)
+		url = "rosmar://" + dir
+	}
+	ctx := context.Background()
+	b, err := rosmar.OpenBucket(url, name, rosmar.CreateNew)
+	if err != nil {
+		res.Incon = "open: " + err.Error()
+		return
+	}
+	defer func() {
+		func() { defer func() { _ = recover() }(); _ = b.CloseAndDelete(ctx) }()
+		if dir != "" {
+			_ = os.RemoveAll(dir)
+		}
+	}()
+	c := b.DefaultDataStore().(*rosmar.Collection)
+	var mu sync.Mutex
+	var dels []uint64
+	term := make(chan bool)
+	defer close(term)
+	_ = c.StartDCPFeed(ctx, sgbucket.FeedArguments{ID: "rx", Backfill: sgbucket.FeedNoBackfill, Terminator: term}, func(e sgbucket.FeedEvent) bool {
+		if string(e.Key) == "k" && e.Opcode == sgbucket.FeedOpDeletion {
+			mu.Lock()
+			dels = append(dels, e.Cas)
+			mu.Unlock()
+		}
+		return true
+	}, nil)
+	if _, err = c.WriteWithXattrs(ctx, "k", 0, 0, []byte(`{"v":1}`), map[string][]byte{"_sync": []byte(`{"s":1}`)}, nil, nil); err != nil {
+		res.Incon = "set-up: " + err.Error()
+		return
+	}
+	exp := uint32(time.Now().Unix()) + 2
+	switch variant {
+	case "Update-delete":
+		_, err = c.Update("k", exp, func(cur []byte) ([]byte, *uint32, bool, error) { return nil, nil, true, nil })
+	case "Update-delete-relative":
+		_, err = c.Update("k", 2, func(cur []byte) ([]byte, *uint32, bool, error) { return nil, nil, true, nil })
+	case "WriteCas-nil":
+		var cas uint64
+		if _, cas, err = c.GetRaw("k"); err == nil {
+			_, err = c.WriteCas("k", exp, cas, nil, 0)
+		}
+	}
+	if err != nil {
+		res.Incon = "the deleting call failed: " + err.Error()
+		return
+	}
+	_, _, casBefore, _ := c.GetWithXattrs(ctx, "k", []string{"_sync"})
+	time.Sleep(time.Until(time.Unix(int64(exp), 0).Add(Bound)))
+	_, _, casAfter, _ := c.GetWithXattrs(ctx, "k", []string{"_sync"})
+	mu.Lock()
+	res.Deletions = len(dels)
+	mu.Unlock()
+	if res.Deletions > 1 {
+		res.Problems = append(res.Problems, fmt.Sprintf("spurious-deletion|%s deleted the document (expiry argument %d); at that time the tombstone was deleted again by the expiry timer: %d deletion events reached the feed for one deletion", variant, exp, res.Deletions))
+	}
+	if casBefore != 0 && casAfter != casBefore {
+		res.Problems = append(res.Problems, fmt.Sprintf("tombstone-cas-changed|%s deleted the document; without any client activity the tombstone's CAS changed from %d to %d when the deleted document's expiry argument came due", variant, casBefore, casAfter))
+	}
+	return
 }
